@@ -143,7 +143,7 @@ class C43(EngineDCheck):
     assumptions = ['the wall-clock cap (150 s for programs of at most a few dozen interleavings, three orders of magnitude '
                    'above the idle run time) and the 12 s no-cpu stall rule are used only to decide "hangs"',
                    'fields compared are those both sides print; the memory-access trace is not compared']
-    budgets = {'quick': dict(runs=64, wall=55), 'thorough': dict(runs=1500, wall=900)}
+    budgets = {'quick': dict(runs=64, wall=40), 'thorough': dict(runs=1500, wall=900)}
     mc_timeout = dict(none=150, reduced=150)
 
     def gen(self, seed, tier):
